@@ -37,7 +37,7 @@ type Call struct {
 	StartAt, EndAt     time.Duration
 
 	// body fault plan
-	StallAfter int  // >0: send only this many body bytes, then wait for Resume/close
+	StallAfter int // >0: send only this many body bytes, then wait for Resume/close
 	resume     chan bool
 	Tag        string
 }
